@@ -239,6 +239,10 @@ package py
 //@   ensures cached: old(loaded(ctx, name)) ==> err == nil && is(r, *Module) && r.(*Module) == old(modof(ctx, name)) && opat[0] == 0
 //@   ensures once: opat[0] <= 1
 //@   ensures how: err == nil && !old(loaded(ctx, name)) ==> opat[46] == 1 || opat[47] == 1
+//@   callsite py.RunFile modname: arg(0) == ctx && is(arg(3), string) && arg(3).(string) == name
+//@   callsite GetModuleImpl implname: arg(0) == name
+//@   callsite py.Context.GetModule cachekey: arg(0) == ctx && arg(1) == name
+//@   callsite py.Context.ModuleInit init: arg(0) == ctx
 
 // ---- entry points used by the REPL (C20) ----
 
